@@ -286,3 +286,19 @@ def register(add):
         "unchanged tree was triaged by hand); generator constraints listed in the check's assumptions.",
         "DESIGN.md 3/C14",
     )
+    add(
+        "C20",
+        "exploration",
+        "thread-identity and result-relay monitor under real threads, tiny switch interval and sys.monitoring LINE-hook yield injection inside the proxy's dispatch code; owner loop running / being stopped / closed",
+        "Real EventLoopThread + ThreadsafeProxy around a probe whose methods record (under a lock) the thread and "
+        "loop they ran on.  Bursts of calls of every method kind come from the owner loop and from 2-4 other "
+        "threads with their own loops, while the owner loop runs, while force_stop() races the burst, and after "
+        "the thread-complete future resolved.  Oracle: a cross-loop call's body runs exactly once on the owner "
+        "thread and loop, never on the caller's; coroutine calls relay value / exception; plain calls return "
+        "nothing to the caller; owner-loop calls run directly; non-callable attributes raise TypeError; calls "
+        "started after the loop is closed return nothing promptly and never execute; calls racing the stop are "
+        "unconstrained except for the executing thread.",
+        "Trusted: CPython threading/asyncio; monitor log protected by its own lock; wall-clock used only for "
+        "watchdogs (inconclusive, never a violation).",
+        "DESIGN.md 3/C20",
+    )
